@@ -140,3 +140,74 @@ def rf17(run):
         if c not in have:
             run.info(rule, 'doc-inconsistency: MIR.md:%d documents %s which is not an opcode' % (md[c][1], c))
     return rows
+
+
+# ---------------------------------------------------------------------------------------------
+# RF19 validator decision tables (abstract evaluation over finite domains)
+# ---------------------------------------------------------------------------------------------
+from lib import enumflow as EF
+from lib import regions as R
+from lib import absint as AI
+
+
+def rf19_mem(run):
+    rule = 'RF19'
+    run.rule(rule, 'MIR_finish_func, memory operands: over every MIR type × {call, non-call instruction} × {disp >= 0, disp < 0} the '
+                   'validator raises MIR_wrong_type_error exactly for types that are not data types, for block types outside call '
+                   'instructions ("can be used only for argument of function", MIR.md) and for block memory with negative displacement')
+    tu = run.tu('mir')
+    f = tu.func('MIR_finish_func')
+    run.functions_analysed.add(('mir', f.name))
+    sws = [s for s in R.find_switches(f, lambda c: c.endswith('.mode'))]
+    region = None
+    for sw in sws:
+        for r in R.switch_regions(f, sw):
+            if any(nm == 'MIR_OP_MEM' for nm, lo, hi in r['cases']):
+                region = r
+    if region is None:
+        raise F.AnalysisBroken('MIR_finish_func: case MIR_OP_MEM of the operand-mode switch not found')
+    # key names as the code spells them
+    tkey = dkey = None
+    for x in R.region_nodes(region['stmts']):
+        if x['k'] == 'MemberExpr' and x['n'] == 'type' and '.mem' in F.src(x):
+            tkey = F.src(x)
+        if x['k'] == 'MemberExpr' and x['n'] == 'disp' and '.mem' in F.src(x):
+            dkey = F.src(x)
+    if tkey is None or dkey is None:
+        raise F.AnalysisBroken('MIR_finish_func: memory type / disp operands not found in the MEM case')
+    base = tkey.replace('.type', '.base')
+    index = tkey.replace('.type', '.index')
+    preds = EF.Predicates(tu)
+    ai = AI.AbsInt(tu, preds)
+    types = tu.enum('MIR_type_t')
+    tval = dict(types)
+    codes = dict(tu.enum('MIR_insn_code_t'))
+    data_types = {'MIR_T_I8', 'MIR_T_U8', 'MIR_T_I16', 'MIR_T_U16', 'MIR_T_I32', 'MIR_T_U32', 'MIR_T_I64', 'MIR_T_U64', 'MIR_T_F',
+                  'MIR_T_D', 'MIR_T_LD', 'MIR_T_P'}
+    blk_lo, rblk = tval['MIR_T_BLK'], tval['MIR_T_RBLK']
+    domain = [(n, v) for n, v in types if n not in ('MIR_T_BLK',)]
+    domain += [('MIR_T_BLK+%d' % k, blk_lo + k) for k in range(0, rblk - blk_lo)]
+    for tn, tv in domain:
+        is_blk = blk_lo <= tv <= rblk
+        for cn in ('MIR_CALL', 'MIR_JCALL', 'MIR_ADD', 'MIR_MOV'):
+            callp = cn in ('MIR_CALL', 'MIR_JCALL')
+            for disp in (0, -8):
+                env = {tkey: tv, dkey: disp, 'code': codes[cn], 'insn->code': codes[cn], base: 0, index: 0}
+                outs = set()
+                for st in region['stmts']:
+                    r = ai.run(st, env)
+                    outs |= {o for o in r if o != 'fall'}
+                    if 'fall' not in r:
+                        break
+                raised = any(o.startswith('error:MIR_wrong_type_error') for o in outs)
+                other = [o for o in outs if o.startswith('error:') and 'wrong_type' not in o]
+                expect = (tn not in data_types and not is_blk) or (is_blk and not callp) or (is_blk and disp < 0)
+                ok = raised == expect and not other
+                run.ob(rule, (tn, cn, disp), ok, {'memory type': tn, 'instruction': cn, 'disp': disp, 'validator': 'rejects' if raised else 'accepts',
+                                                 'documented': 'reject' if expect else 'accept'})
+                if not ok:
+                    run.violation(rule, f, 'memory operand of type %s in %s' % (tn, cn),
+                                  'MIR_finish_func %s a memory operand of type %s (disp %d) in a %s instruction; %s'
+                                  % ('accepts' if not raised else 'rejects', tn, disp, cn,
+                                     'block types are legal only as call arguments and UNDEF/BOUND are not data types' if expect
+                                     else 'this operand is well-formed and must be accepted'), line=region['line'])
